@@ -1,4 +1,5 @@
 from datetime import datetime
+from io import BytesIO
 from pathlib import Path
 from typing import IO, List, Optional, Type, Union
 
@@ -382,6 +383,17 @@ class Tdf:
             comment=comment,
         )
 
+        # nothing has been touched so far: make sure that the entry and the block can
+        # be encoded and that only unused slots follow, so that a refused request
+        # leaves the file and the in-memory table exactly as they were
+        new_entry._write(BytesIO())
+        newBlock._write(BytesIO())
+        if any(
+            entry.type != BlockType.unusedSlot
+            for entry in self.entries[unusedBlockPos + 1 :]
+        ):
+            raise IOError("All unused slots must be at the end of the file")
+
         # replace the entry
         self.entries[unusedBlockPos] = new_entry
 
@@ -540,6 +552,10 @@ class Tdf:
             raise ValueError(f"No block of type {newBlock.type} found")
 
         comment = comment if comment is not None else old_entry.comment
+
+        # the old block is only removed once the new one is known to be encodable
+        BTSString.write(256, comment)
+        newBlock._write(BytesIO())
 
         self.remove_block(newBlock.type)
         self.add_block(newBlock, comment)
